@@ -22,6 +22,12 @@ Tie:   X — the real limitparallelrequests.New(...) runs under testing/synctest
        (+ a cancellation) on one and two paths are enumerated; same judge, same trace inclusion.  Props/C16Atomic.lean proves why the
        model may take an arrival as one atomic event (current_element_refines_atomic, reviewed_shape_refines_atomic) and that it may
        not when the callback runs on a stale element (stale_element_not_refined).
+       X (far along) — bursts of 63..129 (thorough ..300, seeded walks ..420) requests waiting for ONE path — the sizes at which the
+       queue's backing array grows and at which a drained queue uses at most a quarter of it — drained one completion at a time,
+       thinned by cancellations, topped up by arrivals; same judge, same trace inclusion.  Props/C16Queue.lean proves that the model's
+       list of waiters is the contents of the Go slice under append / q[1:] / slices.Delete for every length and capacity
+       (slice_queue_refines_list) and what a step that moves the queue to another array must preserve (shrinkCopy_contents;
+       seeded_shrink_loses_waiters is the witness for copy-into-a-zero-length-slice).
 Hook:  net/client/limitParallelRequests/export_verif.go (read-only: VerifHash, VerifEntries, VerifEndpoint).
 """
 import glob
@@ -32,7 +38,7 @@ from concurrent.futures import ThreadPoolExecutor
 
 from . import common
 
-MODULES = ["CoapVerif.Props.C16", "CoapVerif.Props.C16Atomic"]
+MODULES = ["CoapVerif.Props.C16", "CoapVerif.Props.C16Atomic", "CoapVerif.Props.C16Queue"]
 CORPUS = os.path.join(common.VERIF, "corpus", "C16")
 
 
@@ -75,6 +81,78 @@ def gen_lines(ctx):
     L.append("random %d %d 8 3" % (ctx.seed, n))
     L.append("random %d %d 12 2" % (ctx.seed + 1000003, n // 2))
     return L
+
+
+# Far along: the waiter queue of ONE path is a Go slice that is appended to, popped by re-slicing and thinned by slices.Delete; its
+# backing array doubles at 64 / 128 / 256 waiters (then 512, 848 ...).  Whatever depends on the size or the spare capacity of that
+# array is out of reach of histories with a handful of requests.  Sizes of a burst of simultaneous waiters, permanently in the
+# generated set: the powers of two at which the array grows, their neighbours, and the ends of the ranges in which a drained
+# queue uses at most a quarter of an array of >= 64 slots (65..80, 129..208, 257..).
+BURSTS_QUICK = [63, 64, 65, 72, 80, 81, 129]
+BURSTS_THOROUGH = [127, 128, 130, 160, 208, 209, 256, 257, 300]
+
+
+def burst_histories(sizes, cfgs_drain=((0, 1), (2, 1), (2, 2), (1, 2)), cfgs_churn=((0, 1), (2, 2))):
+    """Deterministic histories in which n requests wait for path 0 behind the E holders of its slots, every call in a window of
+    its own (so the arrival order is known to the judge):
+    * drain — the holders complete one at a time, each completion admits the next waiter, until all have run;
+    * churn — every completion is followed by the cancellation of a waiter (newest / oldest / middle in turn) and by a new
+      arrival for the path; when no waiter is left the rest completes."""
+    H = []
+    for n in sizes:
+        for (l, e) in cfgs_drain:
+            last = e + n - 1
+            H.append("cfg %d %d ; arrive 0..%d 0 ; finish 0..%d ; idle" % (l, e, last, last))
+        for (l, e) in cfgs_churn:
+            ev = ["arrive 0..%d 0" % (e + n - 1)]
+            running = list(range(e))
+            waiting = list(range(e, e + n))
+            nxt = e + n
+            rnd = 0
+            while running:
+                r = running.pop(0)
+                ev.append("finish %d" % r)
+                if waiting:
+                    running.append(waiting.pop(0))
+                if waiting:
+                    c = waiting.pop((-1, 0, len(waiting) // 2)[rnd % 3])
+                    ev.append("cancel %d" % c)
+                    ev.append("arrive %d 0" % nxt)
+                    waiting.append(nxt)
+                    nxt += 1
+                rnd += 1
+            H.append("cfg %d %d ; %s ; idle" % (l, e, " ; ".join(ev)))
+    return H
+
+
+def gen_burst_lines(ctx):
+    thorough = ctx.tier == "thorough"
+    L = ["replay " + h for h in burst_histories(BURSTS_QUICK + (BURSTS_THOROUGH if thorough else []))]
+    # seeded walks that start with such a burst (harness: burstWalk): pure drain / drain with cancellations / churn
+    L.append("burst %d %d 65 80" % (ctx.seed + 31, 120 if thorough else 40))
+    L.append("burst %d %d 129 208" % (ctx.seed + 32, 60 if thorough else 12))
+    L.append("burst %d %d 20 64" % (ctx.seed + 33, 60 if thorough else 20))
+    if thorough:
+        L.append("burst %d 20 257 420" % (ctx.seed + 34))
+    return L
+
+
+def max_waiters(h):
+    """largest number of waiters in one path's queue seen in a history (from the read-only table hook)"""
+    m = 0
+    for seg in h.split(";"):
+        i = seg.find(" tab ")
+        if i < 0:
+            continue
+        w = seg[i + 5:].split()
+        if not w or w[0] == "-":
+            continue
+        for ent in w[0].split(","):
+            try:
+                m = max(m, int(ent.rsplit("/", 1)[1]))
+            except (IndexError, ValueError):
+                pass
+    return m
 
 
 def gen_conn_lines(ctx):
@@ -252,6 +330,7 @@ def explore(ctx, art):
             else:
                 lines.append("replay " + l)
     ncorpus = len(lines) + len(clines)
+    lines += gen_burst_lines(ctx)
     lines += gen_lines(ctx)
     clines += gen_conn_lines(ctx)
     out = run_harness(ctx, art["test"], lines)
@@ -285,6 +364,11 @@ def explore(ctx, art):
     validated = 0
     for i, h in enumerate(hist):
         qc, multi, nev, multi_arrive, inversion = classify(h)
+        mw = max_waiters(h) if h.startswith("cfg ") else 0
+        for lo in (256, 128, 64):
+            if mw > lo:
+                ctx.count("histories with more than %d requests waiting for one path at the same time" % lo)
+                break
         if multi_arrive:
             ctx.count("histories with several calls made in one window")
         if inversion:
@@ -342,7 +426,9 @@ def explore(ctx, art):
                        "non-running unreturned request, finish of a running request} until all n requests returned, for the "
                        "listed (limit, endpoint limit, n, paths) — see notes for the exact list of this tier; `random` adds seeded "
                        "walks with up to 12 requests, 3 paths, limits 0..3 and 1-3 events per quiescence window (also several calls in one "
-                       "window); fixed racing scenarios (same-path calls in one window behind a contended total limit) are repeated. Each history "
+                       "window); bursts of 63..129 (thorough: ..300, walks ..420) requests waiting for ONE path, drained one completion at a "
+                       "time, thinned by cancellations and topped up by arrivals (fixed sizes at the growth steps of the queue's array and seeded walks); "
+                       "fixed racing scenarios (same-path calls in one window behind a contended total limit) are repeated. Each history "
                        "is judged by Spec/Limiter.lean and checked for trace inclusion in Model/Limiter.lean. A history is "
                        "non-trivial when a cancel hits a request that is queued (arrived, not running, not returned); "
                        "distinct = by event sequence.")
